@@ -3,6 +3,7 @@ CONSTANTS
   MaxDepth = 2
   SampleSize = 5000
   NegUnionFlipsEach = FALSE
+  NegNestedUnionFlips = FALSE
   FalsyObjs = {}
   OperandTruthFilter = FALSE
 SPECIFICATION Spec
